@@ -41,10 +41,11 @@ const (
 	SecMapIdx          // Req.Sl[VI<r>] = 1                        index out of range on the left-hand side
 	SecSetKind         // Resp.G<k> = VA<r>                        ill-typed value stored into an injected struct field
 	SecSetNil          // N<r>.X = 1                               field store through a nil injected pointer
+	SecRangeKey        // forRange x := MM<r> { H.KeyIs(r, x) }    the loop key is a local (named like everybody's local)
 	numSecKinds
 )
 
-var secNames = [...]string{"Y", "Call", "AsgCall", "AsgKind", "Div", "Idx", "Nil", "Unknown", "Arg", "IfKind", "IfIdx", "IfNil", "Elif", "ForKind", "ForStep", "Unb", "Conc", "Local", "Reader", "Stop", "ShW", "ShR", "Upd", "Echo", "Opt", "IfCall", "ForRange", "MapIdx", "SetKind", "SetNil"}
+var secNames = [...]string{"Y", "Call", "AsgCall", "AsgKind", "Div", "Idx", "Nil", "Unknown", "Arg", "IfKind", "IfIdx", "IfNil", "Elif", "ForKind", "ForStep", "Unb", "Conc", "Local", "Reader", "Stop", "ShW", "ShR", "Upd", "Echo", "Opt", "IfCall", "ForRange", "MapIdx", "SetKind", "SetNil", "RangeKey"}
 
 // FaultCapable reports whether a section hosts a fault point.
 func FaultCapable(k int) bool {
@@ -71,6 +72,7 @@ const (
 	RetTopKind  // H.B(r,p) return 1 + VA<r>                    fault point in the top-level return expression
 	RetElse     // if VF<r> { H.Y } else { if H.Ret(r) { return V } }   return from an else block
 	RetReq      // if H.Ret(r) { return Req.ID }                 value derived from the request's own data
+	RetUnexp    // if H.Ret(r) { H.B(r,p) return Req.hidden }    a value reflection cannot hand out: the rule must fail, no entry
 	numRetKinds
 )
 
@@ -115,6 +117,9 @@ func (r *RuleDef) YieldKs() []int {
 	for _, s := range r.Secs {
 		switch s.Kind {
 		case SecY:
+			ks = append(ks, yk)
+			yk++
+		case SecRangeKey:
 			ks = append(ks, yk)
 			yk++
 		case SecIfKind, SecIfIdx, SecIfNil, SecForStep, SecIfCall, SecForRange:
@@ -199,6 +204,9 @@ func (r *RuleDef) Render() string {
 			fmt.Fprintf(&b, "H.B(%d,%d)\nResp.G%d = VA%d\n", id, p, id%8, id)
 		case SecSetNil:
 			fmt.Fprintf(&b, "H.B(%d,%d)\nN%d.X = 1\n", id, p, id)
+		case SecRangeKey:
+			fmt.Fprintf(&b, "forRange x := MM%d {\nH.Y(%d,%d)\nH.KeyIs(%d, x)\n}\n", id, id, yk, id)
+			yk++
 		case SecConc:
 			if s.Arg&(1<<ChLocField) != 0 {
 				fmt.Fprintf(&b, "lp%d = H.Obj(%d)\n", p, id)
@@ -272,6 +280,8 @@ func (r *RuleDef) Render() string {
 		fmt.Fprintf(&b, "if H.Ret(%d) {\nH.B(%d,%d)\nreturn %d + VA%d - 1\n}\n", id, id, rp, r.RetVal(), id)
 	case RetReq:
 		fmt.Fprintf(&b, "if H.Ret(%d) {\nreturn Req.ID\n}\n", id)
+	case RetUnexp:
+		fmt.Fprintf(&b, "if H.Ret(%d) {\nH.B(%d,%d)\nreturn Req.hidden\n}\n", id, id, rp)
 	case RetElse:
 		fmt.Fprintf(&b, "if VF%d {\nH.Y(%d,%d)\n} else {\nif H.Ret(%d) {\nreturn %d\n}\n}\n", id, id, yk, id, r.RetVal())
 	}
